@@ -31,19 +31,25 @@ def snapshot(fsa):
     the label view cannot describe an automaton (unhashable target, target
     that is not a vertex)."""
     g = fsa.graph_dict
-    starts = list(fsa.start_vertices)
-    m = Model(starts=starts)
-    for v in list(g.keys()):
-        m.vertices.add(v)
-    for v, nb in list(g.items()):
-        for lab, w in list(nb.items()):
-            if not hashable(w):
-                return None, ("label view maps (%r, %r) to the unhashable "
-                              "object %r" % (v, lab, w))
-            if w not in m.vertices:
-                return None, ("label view maps (%r, %r) to %r which is not a "
-                              "vertex" % (v, lab, w))
-            m.delta[(v, lab)] = w
+    m = Model(starts=list(fsa.start_vertices))
+    verts = set(g.keys())
+    delta = {}
+    try:
+        for v, nb in g.items():
+            for lab, w in nb.items():
+                if w not in verts:
+                    return None, ("label view maps (%r, %r) to %r which is not a "
+                                  "vertex" % (v, lab, w))
+                delta[(v, lab)] = w
+    except TypeError:
+        for v, nb in list(g.items()):
+            for lab, w in list(nb.items()):
+                if not hashable(w) or not hashable(lab):
+                    return None, ("label view maps (%r, %r) to the unhashable "
+                                  "object %r" % (v, lab, w))
+        raise
+    m.vertices = verts
+    m.delta = delta
     return m, None
 
 
@@ -257,7 +263,16 @@ def random_automaton(rng, max_states=8, alphabet=("a", "b", "c", "d"),
             w = names[int(rng.integers(lo, hi))]
             d[v][labels[0]] = w
             d[v][labels[1]] = w                                   # parallel edges
-    return d, names[0], labels
+    start = names[0]
+    if n >= 2 and rng.random() < 0.5:
+        # rename the vertices by a permutation: the start vertex is then not
+        # the first key, and the falsy names (0, '') belong to other vertices
+        perm = [names[i] for i in rng.permutation(n)]
+        ren = dict(zip(names, perm))
+        d = {ren[v]: {lab: ren[w] for lab, w in nb.items()} for v, nb in d.items()}
+        d = {v: d[v] for v in sorted(d, key=repr)}
+        start = ren[start]
+    return d, start, labels
 
 
 def features(d, start):
@@ -387,10 +402,22 @@ def match_multiset(got, ref, tol):
         return True, 0.0, None
     g = got.reshape(n, -1)
     r = ref.reshape(n, -1)
+    scale = 1.0 + np.max(np.abs(g), axis=1)
+    # same order (cheap, common)?
+    same = np.max(np.abs(g - r), axis=1) / scale
+    if np.all(same <= tol):
+        return True, float(np.max(same)), None
+    if n <= 1500:
+        D = np.max(np.abs(g[:, None, :] - r[None, :, :]), axis=2) / scale[:, None]
+    else:
+        D = None
     used = np.zeros(n, dtype=bool)
     worst = 0.0
     for i in range(n):
-        dist = np.max(np.abs(r - g[i]), axis=1) / (1.0 + np.max(np.abs(g[i])))
+        if D is not None:
+            dist = D[i]
+        else:
+            dist = np.max(np.abs(r - g[i]), axis=1) / scale[i]
         dist = np.where(used, np.inf, dist)
         j = int(np.argmin(dist))
         if not dist[j] <= tol:
